@@ -349,7 +349,7 @@ pub fn gdoc() -> impl Strategy<Value = GDoc> {
         maybe_section(mostly_distinct(grole(), ROLE_NAMES, 3, |r, n| r.name = n)),
         maybe_section(mostly_distinct(gident(), IDENT_NAMES, 4, |i, n| i.name = n)),
         maybe_section(prop::collection::vec(gassign(), 0..4)),
-        prop::collection::vec((any::<u16>(), any::<u16>(), any::<u16>()), 0..3),
+        prop::collection::vec((any::<u16>(), any::<u16>(), any::<u16>()), 0..4),
     )
         .prop_map(|(mode, default_access, rules_present, privileges, mut roles, identities, mut assignments, chains)| {
             // wire up complete chains privilege -> role -> assignment -> identity so that grants are frequent
@@ -363,13 +363,19 @@ pub fn gdoc() -> impl Strategy<Value = GDoc> {
                             rs[ri].privileges.push(p.name.clone());
                         }
                         let rname = rs[ri].name.clone();
-                        match asg.iter_mut().find(|x| x.role == rname) {
+                        // mostly a NEW assignment (several assignments may reach one privilege, through the same
+                        // role or through different roles); sometimes merged into an existing one
+                        let merge = (a ^ b ^ c) % 4 == 0;
+                        match asg.iter_mut().find(|x| x.role == rname && merge) {
                             Some(x) => {
                                 if !x.identities.contains(&i.name) {
                                     x.identities.push(i.name.clone());
                                 }
                             }
-                            None => asg.push(GAssign { role: rname, identities: vec![i.name.clone()] }),
+                            None => {
+                                let at = crate::runner::pick(a.rotate_left(3), asg.len() + 1);
+                                asg.insert(at, GAssign { role: rname, identities: vec![i.name.clone()] })
+                            }
                         }
                     }
                 }
